@@ -128,6 +128,10 @@ def gdb_text(key):
         f"   {name}*9.001:", f"      label: {name}*9", "      mutations:",
         f"      - [15, {sub(15, 2)}, -, functional]",
         f"      - [51, {sub(51, 3)}, -, functional]",
+        # a function-altering substitution on the base a catalogued insertion follows (same position label on '+')
+        f"   {name}*12.001:", f"      label: {name}*12", "      mutations:",
+        f"      - [19, {sub(19, 1)}, -, functional]",
+        f"      - [63, {sub(63, 1)}, -, functional]",
         *([f"   {name}*1.003:", f"      label: {name}*1C", "      mutations:",
            f"      - [38, {sub(38, 2)}, -]",
            f"   {name}*10.001:", f"      label: {name}*10", "      mutations:",
